@@ -1,4 +1,5 @@
 import Props.C19
+import Props.C19Formats
 #print axioms Webauthn.Props.C19.hierarchy
 #print axioms Webauthn.Props.C19.vocabulary
 #print axioms Webauthn.Props.C19.parsers_reg
@@ -10,3 +11,10 @@ import Props.C19
 #print axioms Webauthn.Props.C19.semantic_reg
 #print axioms Webauthn.Props.C19.fmt_none_in_hierarchy
 #print axioms Webauthn.Props.C19.fmt_unknown_in_hierarchy
+#print axioms Webauthn.Props.C19.fmt_packed_in_hierarchy
+#print axioms Webauthn.Props.C19.fmt_apple_in_hierarchy
+#print axioms Webauthn.Props.C19.fmt_u2f_in_hierarchy
+#print axioms Webauthn.Props.C19.fmt_android_key_in_hierarchy
+#print axioms Webauthn.Props.C19.fmt_tpm_in_hierarchy
+#print axioms Webauthn.Props.C19.fmt_safetynet_in_hierarchy
+#print axioms Webauthn.sigPlan_fail
